@@ -104,17 +104,35 @@ def refineStep (H : List Item → Nat) (HT : Term → Nat) (g : Graph) (W : Colo
       (coloring', sequence')
     else st
 
-/-- the `while len(sequence) > 0 and not self._discrete(coloring)` loop, with fuel -/
+/-- one iteration of the `while` loop after `W = sequence.pop()`: the whole `for c in coloring[:]` pass
+    (`seq0` is the sequence after the pop) -/
+def refinePass (H : List Item → Nat) (HT : Term → Nat) (g : Graph) (W : Color)
+    (coloring seq0 : List Color) : List Color × List Color :=
+  coloring.foldl (refineStep H HT g W) (coloring, seq0)
+
+/-- the loop condition `len(sequence) > 0 and not self._discrete(coloring)`, negated -/
+def refineDone (coloring sequence : List Color) : Bool :=
+  sequence.isEmpty || coloring.all Color.discrete
+
+/-- the `while len(sequence) > 0 and not self._discrete(coloring)` loop, with fuel
+    (`refineLoop_run` in RefineLemmas.lean: the fuel `refineFuel coloring sequence` always suffices) -/
 def refineLoop (H : List Item → Nat) (HT : Term → Nat) (g : Graph) : Nat → List Color → List Color → List Color
   | 0, coloring, _ => coloring
   | fuel + 1, coloring, sequence =>
-    if sequence.isEmpty || coloring.all Color.discrete then coloring
+    if refineDone coloring sequence then coloring
     else
       match sequence.getLast? with
       | none => coloring
       | some W =>
-        let st := coloring.foldl (refineStep H HT g W) (coloring, sequence.dropLast)
+        let st := refinePass H HT g W coloring sequence.dropLast
         refineLoop H HT g fuel st.1 st.2
+
+/-- number of nodes held by a colouring -/
+def nodeCount (cs : List Color) : Nat := (cs.flatMap (·.nodes)).length
+
+/-- the fuel that always suffices: every iteration pops one splitter and pushes one per newly created cell -/
+def refineFuel (coloring sequence : List Color) : Nat :=
+  sequence.length + (nodeCount coloring - coloring.length) + 1
 
 /-- final merge of colours whose hashes collide -/
 def mergeByHash (H : List Item → Nat) (HT : Term → Nat) : List Color → List Color → List Color
@@ -129,6 +147,12 @@ def mergeByHash (H : List Item → Nat) (HT : Term → Nat) : List Color → Lis
 def refine (H : List Item → Nat) (HT : Term → Nat) (g : Graph) (fuel : Nat) (coloring sequence : List Color) : List Color :=
   mergeByHash H HT (refineLoop H HT g fuel coloring (sortDesc H HT sequence)) []
 
+/-- the call in `canonical_triples`: `self._refine(coloring, coloring[:])` on the initial colouring, with the
+    fuel that provably suffices (the sort does not change the length of the sequence) -/
+def refineInit (H : List Item → Nat) (HT : Term → Nat) (g : Graph) : List Color :=
+  let c0 := initialColor g
+  refine H HT g (refineFuel c0 c0) c0 c0
+
 /-- `bnode_labels = dict((c.nodes[0], c.hash_color()) for c in coloring)` restricted to blank nodes -/
 def canonLabels (hc : Color → Nat) : List Color → Asg
   | [] => []
@@ -139,6 +163,15 @@ def canonLabels (hc : Color → Nat) : List Color → Asg
 
 /-- `canonical_triples`: every blank node replaced by `BNode("cb" + labels[node])` -/
 def canonicalTriples (labels : Asg) (g : Graph) : Graph := g.rename labels.fn
+
+/-- `canonical_triples` on the path that needs no search (`self._discrete(coloring)` after the initial `_refine`):
+    labels from the colour hashes of the refined colouring -/
+def canonRefine (H : List Item → Nat) (HT : Term → Nat) (g : Graph) : Graph :=
+  canonicalTriples (canonLabels (Color.hash H HT) (refineInit H HT g)) g
+
+/-- `self._discrete(coloring)` for the blank-node colours after the initial refinement -/
+def refineDiscrete (H : List Item → Nat) (HT : Term → Nat) (g : Graph) : Bool :=
+  (refineInit H HT g).all Color.discrete
 
 /-! ### a concrete (non-cryptographic) instance of the hash parameters, for the driver's diagnostic `refine` op:
     like the code, the colour hash is a SUM of per-item hashes (order-independent) -/
@@ -156,9 +189,7 @@ def sumHash (its : List Item) : Nat := (its.foldl (fun acc i => acc + itemHash i
 
 /-- partition of the blank nodes after `_refine(_initial_color(), …)`, as lists of ids -/
 def refinePartition (g : Graph) : List (List Nat) :=
-  let c0 := initialColor g
-  let fuel := 4 * (c0.length + (bnodes g).length + 2) * (c0.length + (bnodes g).length + 2)
-  let cs := refine sumHash termHash g fuel c0 c0
+  let cs := refineInit sumHash termHash g
   (cs.filter (fun c => c.ground.isNone)).map (fun c => c.nodes.map (·.id))
 
 end RV.C14
